@@ -53,9 +53,26 @@ struct wake_awaiter : awaiter {
     static suspend_point<void> fn(awaiter *me, void *) noexcept;
 };
 
+// storage of one subscriber object: constructed in place and never handed back to the allocator before the case
+// ends, so the object's address identifies this sid for the whole case — also after the subscriber has left
+// (publisher::kick documents that its pointer may be stale: `kick <sid>` of a left subscriber uses exactly that)
+struct sub_slot {
+    alignas(sub_t) unsigned char buf[sizeof(sub_t)];
+    sub_t *p = nullptr;
+    template <typename... A> void make(A &&...a) { p = new (buf) sub_t(std::forward<A>(a)...); }
+    void reset() { if (p) { p->~sub_t(); p = nullptr; } }
+    sub_t *operator->() { return p; }
+    sub_t &operator*() { return *p; }
+    sub_t *get() { return p; }
+    const sub_t *address() const { return reinterpret_cast<const sub_t *>(buf); }
+    sub_slot() = default;
+    sub_slot(const sub_slot &) = delete;
+    ~sub_slot() { reset(); }
+};
+
 struct sub_ent {
     int sid = -1;
-    std::unique_ptr<sub_t> s;
+    sub_slot s;
     phase_t phase = GONE;
     wake_awaiter awt;
     bool woken = false;              // manual: wake-up callback ran
@@ -245,8 +262,8 @@ static void run_case(std::istream &in, std::size_t maxlen, std::size_t minlen) {
             } else {
                 e->sid = a1;
                 e->awt.owner = e;
-                if (at) e->s.reset(new sub_t(*c.pub, p, mode_of(m)));
-                else e->s.reset(new sub_t(*c.pub, mode_of(m)));
+                if (at) e->s.make(*c.pub, p, mode_of(m));
+                else e->s.make(*c.pub, mode_of(m));
                 e->phase = IDLE;
                 head << op << " " << a1 << c.pos(*e);
             }
@@ -259,7 +276,7 @@ static void run_case(std::istream &in, std::size_t maxlen, std::size_t minlen) {
             } else {
                 e->sid = a1;
                 e->awt.owner = e;
-                e->s.reset(new sub_t(*s->s));
+                e->s.make(*s->s);
                 e->phase = IDLE;
                 head << "copy " << a1 << c.pos(*e);
             }
@@ -377,7 +394,9 @@ static void run_case(std::istream &in, std::size_t maxlen, std::size_t minlen) {
                 if (!e) head << "bad";
                 else { e->s->kick_me(); head << "kickme " << a1; }
             } else {
-                const sub_t *target = e ? e->s.get() : reinterpret_cast<const sub_t *>(&c.dummy_target);
+                // a live subscriber; or the stale address of one that has left; or (sid never used) nobody's address
+                const sub_t *target = reinterpret_cast<const sub_t *>(&c.dummy_target);
+                if (a1 >= 0 && (std::size_t)a1 < c.subs.size() && c.subs[a1].sid != -1) target = c.subs[a1].s.address();
                 if (c.pub) c.pub->kick(target); else c.q->kick(target);
                 head << "kick " << a1;
             }
